@@ -189,7 +189,7 @@ def report(ctx, name, g, doc, verdict, kindsig):
 def run(ctx):
     thorough = ctx.tier == 'thorough'
     tlc.sany(SPEC)
-    names = list(L.CATALOGUE) if thorough else ['G2', 'Gpartul', 'Gneg', 'Grect', 'G15', 'Gnear', 'Gthr', 'Gunal', 'G1', 'Gcust']
+    names = list(L.CATALOGUE) if thorough else ['G2', 'Gpartul', 'Gneg', 'Grect', 'Grectul', 'G15', 'Gnear', 'Gthr', 'Gunal', 'G1', 'Gcust']
     n_rect, n_pt = (6000, 3000) if thorough else (700, 500)
     total = 0
     for name in names:
